@@ -1,6 +1,6 @@
 (** * DddmpLoad: [dd.dddmp.load] rebuilds, in a new manager, the functions
       described by the node list of a text-mode DDDMP file (property C16) *)
-From DD Require Export Dddmp Ite.
+From DD Require Export Dddmp Cofactor.
 
 (** ** Association lists *)
 Lemma alist_get_cons {K A} `{EqDecision K} (k' : K) (a' : A) l k :
@@ -422,3 +422,431 @@ Proof.
 Qed.
 
 End rebuild.
+
+(** ** Construction [BDD(levels)] (restated here so that this file only
+    depends on the core development) *)
+Lemma dl_init_fields :
+  succ init = {[1%positive := tterm 0]} ∧ pred init = {[tterm 0 := 1%positive]} ∧
+  refc init = {[1%positive := 1]} ∧ min_free init = 2%positive ∧ ite_tab init = ∅ ∧
+  vars init = ∅ ∧ lvl2var init = ∅ ∧ last_len init = None ∧ rctx init = false.
+Proof.
+  unfold init, init_terminal. cbn. rewrite delete_empty, lookup_empty. by split_and!.
+Qed.
+
+Definition dl_fresh (s : st) : Prop :=
+  succ s = {[1%positive := tterm (nvars s)]} ∧
+  pred s = {[tterm (nvars s) := 1%positive]} ∧
+  refc s = {[1%positive := 1]} ∧ min_free s = 2%positive ∧ ite_tab s = ∅ ∧
+  (∀ v l, vars s !! v = Some l ↔ lvl2var s !! l = Some v) ∧
+  size (lvl2var s) = nvars s.
+
+Lemma dl_fresh_init : dl_fresh init.
+Proof.
+  destruct dl_init_fields as (?&?&?&?&?&Ev&El&_). unfold dl_fresh.
+  change (nvars init) with 0. rewrite Ev, El.
+  split_and!; try done.
+Qed.
+
+Lemma dl_fresh_Inv s : dl_fresh s → (∀ l, l < nvars s ↔ is_Some (lvl2var s !! l)) → Inv s.
+Proof.
+  intros (Es&Ep&Er&Em&Ei&Hb&_) Hl. split.
+  - by rewrite Es, lookup_singleton.
+  - intros n t Hn Hn1. rewrite Es in Hn. apply lookup_singleton_Some in Hn as [<- _]. done.
+  - intros n t. rewrite Es, Ep, !lookup_singleton_Some. naive_solver.
+  - rewrite Em, Es. split; [done|]. intros k Hk.
+    assert (k = 1%positive) as -> by lia. rewrite lookup_singleton. by eexists.
+  - by rewrite Er, Es, !dom_singleton_L.
+  - intros g u v w Hi. by rewrite Ei, lookup_empty in Hi.
+  - done.
+  - done.
+Qed.
+
+Lemma dl_fresh_add_var s v l :
+  dl_fresh s → vars s !! v = None → lvl2var s !! l = None →
+  ∃ s', add_var v (Some l) s = (Ok l, s') ∧ dl_fresh s' ∧ frame s s' ∧
+        vars s' = <[v := l]> (vars s) ∧ lvl2var s' = <[l := v]> (lvl2var s).
+Proof.
+  intros (Es&Ep&Er&Em&Ei&Hb&Hsz) Hv Hl.
+  unfold add_var. cbn [bind get]. rewrite decide_False by (rewrite Hv; by intros [? ?]).
+  unfold next_free_level. rewrite bind_assoc. cbn [bind get]. rewrite Hl.
+  cbn [bind ret modify get init_terminal]. eexists. split; [reflexivity|].
+  assert (Hn2 : size (<[v := l]> (vars s)) = S (nvars s))
+    by (by rewrite map_size_insert_None).
+  split; [|split; [by repeat split|done]].
+  unfold dl_fresh, nvars. cbn. rewrite Hn2, Es, Ep, Er. fold (nvars s).
+  split; [apply insert_singleton|]. split.
+  { rewrite lookup_singleton. cbn [default]. by rewrite delete_singleton, insert_empty. }
+  split; [by rewrite lookup_singleton|].
+  split; [done|split; [done|split]].
+  - intros v' l'.
+    destruct (decide (v' = v)) as [->|Hv']; destruct (decide (l' = l)) as [->|Hl'].
+    + by rewrite !lookup_insert.
+    + rewrite lookup_insert, lookup_insert_ne by done. split; [congruence|].
+      intros Hx. apply Hb in Hx. congruence.
+    + rewrite lookup_insert_ne, lookup_insert by done. split; [|congruence].
+      intros Hx. apply Hb in Hx. congruence.
+    + rewrite !lookup_insert_ne by done. apply Hb.
+  - rewrite map_size_insert_None by done. by rewrite Hsz.
+Qed.
+
+Lemma dl_init_levels_forM (levels : list (nat * nat)) : ∀ s,
+  dl_fresh s → NoDup (levels.*1) → NoDup (levels.*2) →
+  (∀ v, v ∈ levels.*1 → vars s !! v = None) →
+  (∀ l, l ∈ levels.*2 → lvl2var s !! l = None) →
+  ∃ s', forM levels (fun '(v, l) => add_var v (Some l) ;;; ret tt) s = (Ok tt, s') ∧
+        dl_fresh s' ∧ frame s s' ∧
+        vars s' = list_to_map levels ∪ vars s ∧
+        dom (lvl2var s') = list_to_set (levels.*2) ∪ dom (lvl2var s).
+Proof.
+  induction levels as [|[v l] levels IH]; intros s Hf Hn1 Hn2 Hv Hl.
+  { exists s. cbn. split; [done|split; [done|split; [reflexivity|]]].
+    split; [by rewrite (left_id_L ∅ (∪))|set_solver]. }
+  cbn [fmap list_fmap fst snd] in Hn1, Hn2, Hv, Hl.
+  apply NoDup_cons in Hn1 as [Hv1 Hn1]. apply NoDup_cons in Hn2 as [Hl1 Hn2].
+  destruct (dl_fresh_add_var s v l Hf) as (s1&Ea&Hf1&Hfr1&Ev1&El1);
+    [apply Hv; by left|apply Hl; by left|].
+  destruct (IH s1 Hf1 Hn1 Hn2) as (s'&Er&Hf'&Hfr'&Ev'&El').
+  { intros v' Hv'. rewrite Ev1, lookup_insert_ne; [apply Hv; by right|]. by intros ->. }
+  { intros l' Hl'. rewrite El1, lookup_insert_ne; [apply Hl; by right|]. by intros ->. }
+  exists s'. cbn [forM]. rewrite bind_assoc, (bind_ok _ _ _ _ _ Ea). cbn [bind ret].
+  split; [done|split; [done|split; [by etrans|split]]].
+  - rewrite Ev', Ev1. cbn [list_to_map foldr]. cbn.
+    rewrite <- insert_union_r; [by rewrite insert_union_l|].
+    apply not_elem_of_list_to_map_1. done.
+  - rewrite El', El1, dom_insert_L. cbn [fmap list_fmap snd list_to_set foldr]. cbn. set_solver.
+Qed.
+
+Lemma dl_init_levels (levels : list (nat * nat)) :
+  NoDup (levels.*1) → NoDup (levels.*2) → levels.*2 ≡ₚ seq 0 (length levels) →
+  ∃ s', init_levels levels init = (Ok tt, s') ∧ Inv s' ∧ last_len s' = None ∧
+        vars s' = list_to_map levels ∧ nvars s' = length levels.
+Proof.
+  intros Hn1 Hn2 Hperm. unfold init_levels.
+  assert (Hvo : valid_ordering levels = true).
+  { unfold valid_ordering. apply bool_decide_eq_true. by rewrite Hperm. }
+  rewrite Hvo. cbn [assert bind ret].
+  destruct (dl_init_levels_forM levels init dl_fresh_init Hn1 Hn2) as (s1&Er&Hf&Hfr&Ev&El).
+  { intros v _. apply lookup_empty. }
+  { intros l _. apply lookup_empty. }
+  exists s1. split; [done|].
+  change (vars init) with (∅ : gmap nat nat) in Ev. rewrite (right_id_L ∅ (∪)) in Ev.
+  change (lvl2var init) with (∅ : gmap nat nat) in El.
+  rewrite dom_empty_L, (right_id_L ∅ (∪)) in El. rewrite Hperm in El.
+  assert (Hnv : nvars s1 = length levels).
+  { destruct Hf as (_&_&_&_&_&_&Hsz). rewrite <- Hsz, <- size_dom, El.
+    rewrite size_list_to_set by apply NoDup_seq. by rewrite seq_length. }
+  assert (HI : Inv s1).
+  { apply dl_fresh_Inv; [done|]. intros l. rewrite Hnv, <- elem_of_dom, El.
+    rewrite elem_of_list_to_set, elem_of_seq. lia. }
+  destruct Hfr as (E1&_). split_and!; done.
+Qed.
+
+(** ** Python dicts built from pairs with distinct keys *)
+Lemma dict_of_nodup {K A} `{EqDecision K} (l : list (K * A)) : NoDup (l.*1) → dict_of l = l.
+Proof.
+  unfold dict_of.
+  match goal with |- _ → foldl ?f [] l = l =>
+    enough (∀ acc, NoDup ((acc ++ l).*1) → foldl f acc l = acc ++ l) as Hgen
+  end.
+  { intros Hnd. by apply (Hgen []). }
+  induction l as [|[k a] l IH]; intros acc Hnd; cbn [foldl].
+  - by rewrite app_nil_r.
+  - rewrite bool_decide_eq_false_2.
+    + rewrite IH; [by rewrite <- app_assoc|]. by rewrite <- app_assoc.
+    + intros Hin. rewrite fmap_app in Hnd. apply NoDup_app in Hnd as (_&Hd&_).
+      apply (Hd k Hin). cbn. left.
+Qed.
+
+Lemma omap_all_Some {A B} (g : A → option B) (h : A → B) (l : list A) :
+  (∀ x, x ∈ l → g x = Some (h x)) → omap g l = h <$> l.
+Proof.
+  induction l as [|x l IH]; intros H; [done|]. cbn.
+  rewrite (H x) by left. cbn. f_equal. apply IH. intros; apply H; by right.
+Qed.
+
+(** in a sorted list without duplicates, positions and values are ordered alike *)
+Lemma sorted_lookup_lt (l : list nat) i i' k k' :
+  StronglySorted le l → NoDup l → i < i' → l !! i = Some k → l !! i' = Some k' → k < k'.
+Proof.
+  intros Hs. revert i i'. induction Hs as [|x l Hs IH Hall]; intros i i' Hnd Hlt Hi Hi'; [done|].
+  apply NoDup_cons in Hnd as [Hx Hnd].
+  destruct i' as [|i']; [lia|]. cbn in Hi'.
+  destruct i as [|i]; cbn in Hi.
+  - injection Hi as <-. pose proof (elem_of_list_lookup_2 _ _ _ Hi') as Hin.
+    rewrite Forall_forall in Hall. pose proof (Hall _ Hin).
+    assert (x ≠ k') by (intros ->; done). lia.
+  - apply (IH i i'); try done. lia.
+Qed.
+
+Section compaction.
+Context (L : list (nat * nat)).          (* variable -> file level *)
+Context (HL1 : NoDup (L.*1)) (HL2 : NoDup (L.*2)).
+
+Definition cperm : list (nat * nat) := (fun '(v, k) => (k, v)) <$> L.
+Definition csrt : list nat := merge_sort le (L.*2).
+Definition cvar (k : nat) : nat := default 0 (alist_get cperm k).
+Definition cNL : list (nat * nat) := imap (fun i k => (cvar k, i)) csrt.
+
+Lemma cperm_fst : cperm.*1 = L.*2.
+Proof. unfold cperm. rewrite <- list_fmap_compose. apply list_fmap_ext. by intros ? [? ?]. Qed.
+Lemma cperm_dict : dict_of cperm = cperm.
+Proof. apply dict_of_nodup. by rewrite cperm_fst. Qed.
+Lemma cperm_get v k : (v, k) ∈ L → alist_get cperm k = Some v.
+Proof.
+  intros Hin. apply alist_get_nodup; [by rewrite cperm_fst|].
+  unfold cperm. apply elem_of_list_fmap. by exists (v, k).
+Qed.
+Lemma cvar_of v k : (v, k) ∈ L → cvar k = v.
+Proof. intros H. unfold cvar. by rewrite (cperm_get v k H). Qed.
+
+Lemma csrt_perm : csrt ≡ₚ L.*2.
+Proof. apply merge_sort_Permutation. Qed.
+Lemma csrt_nodup : NoDup csrt.
+Proof. by rewrite csrt_perm. Qed.
+Lemma csrt_sorted : StronglySorted le csrt.
+Proof. apply (StronglySorted_merge_sort le). Qed.
+Lemma csrt_length : length csrt = length L.
+Proof. rewrite csrt_perm. by rewrite fmap_length. Qed.
+Lemma csrt_elem k : k ∈ csrt ↔ ∃ v, (v, k) ∈ L.
+Proof.
+  rewrite csrt_perm, elem_of_list_fmap. split.
+  - intros ([v k']&->&?). by exists v.
+  - intros [v ?]. by exists (v, k).
+Qed.
+
+Lemma cNL_lookup i : cNL !! i = (fun k => (cvar k, i)) <$> csrt !! i.
+Proof. unfold cNL. apply list_lookup_imap. Qed.
+Lemma cNL_elem v i : (v, i) ∈ cNL ↔ ∃ k, csrt !! i = Some k ∧ (v, k) ∈ L.
+Proof.
+  split.
+  - intros [j Hj]%elem_of_list_lookup. rewrite cNL_lookup in Hj.
+    destruct (csrt !! j) as [k|] eqn:Hk; [|done]. injection Hj as <- <-.
+    exists k. split; [done|].
+    apply elem_of_list_lookup_2, csrt_elem in Hk as [v Hv]. by rewrite (cvar_of v k Hv).
+  - intros (k&Hk&Hv). apply elem_of_list_lookup. exists i.
+    rewrite cNL_lookup, Hk. cbn. by rewrite (cvar_of v k Hv).
+Qed.
+Lemma cNL_length : length cNL = length L.
+Proof. unfold cNL. by rewrite imap_length, csrt_length. Qed.
+Lemma cNL_snd : cNL.*2 = seq 0 (length L).
+Proof.
+  apply list_eq. intros i. rewrite list_lookup_fmap, cNL_lookup.
+  destruct (csrt !! i) as [k|] eqn:Hk; cbn.
+  - symmetry. apply lookup_seq. split; [done|]. rewrite <- csrt_length. by eapply lookup_lt_Some.
+  - symmetry. apply lookup_ge_None_2. rewrite seq_length, <- csrt_length. by apply lookup_ge_None.
+Qed.
+Lemma cNL_fst_nodup : NoDup (cNL.*1).
+Proof.
+  assert (cNL.*1 = cvar <$> csrt) as ->.
+  { apply list_eq. intros i. rewrite !list_lookup_fmap, cNL_lookup. by destruct (csrt !! i). }
+  apply NoDup_fmap_2_strong; [|apply csrt_nodup].
+  intros k k' [v Hk]%csrt_elem [v' Hk']%csrt_elem E.
+  rewrite (cvar_of v k Hk), (cvar_of v' k' Hk') in E. subst v'.
+  apply elem_of_list_lookup in Hk as [i Hi], Hk' as [i' Hi'].
+  assert (i = i'); [|congruence].
+  apply (NoDup_lookup (L.*1) i i' v); [done|by rewrite list_lookup_fmap, Hi|by rewrite list_lookup_fmap, Hi'].
+Qed.
+Lemma new_levels_eq : dddmp_new_levels L = cNL.
+Proof.
+  unfold dddmp_new_levels. cbv zeta. fold cperm. rewrite cperm_dict, cperm_fst. fold csrt.
+  rewrite (omap_all_Some _ (fun '(i, k) => (cvar k, i))).
+  - pose proof cNL_fst_nodup as Hnd.
+    assert (E : (fun '(i, k) => (cvar k, i)) <$> imap (fun i k => (i, k)) csrt = cNL).
+    { unfold cNL. apply list_eq. intros i. rewrite list_lookup_fmap, !list_lookup_imap.
+      by destruct (csrt !! i). }
+    rewrite E. by apply dict_of_nodup.
+  - intros [i k] Hin. apply elem_of_lookup_imap in Hin as (i'&k'&[= -> ->]&Hk).
+    apply elem_of_list_lookup_2, csrt_elem in Hk as [v Hv].
+    rewrite (cperm_get v k' Hv). cbn. by rewrite (cvar_of v k' Hv).
+Qed.
+
+
+Definition o2n_step : nat * nat → MS (nat * nat) :=
+  fun '(v, k) => n <- of_opt EKey (alist_get cNL v) ;; ret (k, n).
+
+Lemma old2new_run_aux s : ∀ l, (∀ x, x ∈ l → x ∈ L) →
+  ∃ O, mapM o2n_step l s = (Ok O, s) ∧
+       Forall2 (fun x y => y.1 = x.2 ∧ csrt !! y.2 = Some x.2) l O.
+Proof.
+  induction l as [|[v k] l IH]; intros Hl.
+  - exists []. split; [done|constructor].
+  - destruct IH as (O&EO&HO); [intros; apply Hl; by right|].
+    assert (Hin : (v, k) ∈ L) by (apply Hl; left).
+    assert (k ∈ csrt) as [i Hi]%elem_of_list_lookup by (apply csrt_elem; by exists v).
+    assert (alist_get cNL v = Some i) as Hget.
+    { apply alist_get_nodup; [apply cNL_fst_nodup|]. apply cNL_elem. by exists k. }
+    exists ((k, i) :: O). split.
+    + cbn [mapM].
+      assert (Hstep : o2n_step (v, k) s = (Ok (k, i), s)).
+      { unfold o2n_step. by rewrite Hget. }
+      rewrite (bind_ok _ _ _ _ _ Hstep), (bind_ok _ _ _ _ _ EO). done.
+    + by constructor.
+Qed.
+
+Lemma old2new_run s :
+  ∃ O, dddmp_old2new L cNL s = (Ok O, s) ∧ dict_of O = O ∧
+    (∀ k i, alist_get O k = Some i → csrt !! i = Some k) ∧
+    (∀ v k, (v, k) ∈ L → is_Some (alist_get O k)).
+Proof.
+  destruct (old2new_run_aux s L (fun x H => H)) as (O&EO&HO).
+  exists O. split; [exact EO|].
+  assert (Hfst : O.*1 = L.*2).
+  { clear -HO. induction HO as [|x y l O' [E _] _ IH]; [done|]. rewrite !fmap_cons. by rewrite E, IH. }
+  split_and!.
+  - apply dict_of_nodup. by rewrite Hfst.
+  - intros k i Hget. apply alist_get_elem in Hget.
+    apply elem_of_list_lookup in Hget as [j Hj].
+    destruct (Forall2_lookup_r _ _ _ _ _ HO Hj) as ([v k']&_&E&Hs). cbn in E, Hs. by subst.
+  - intros v k Hin. apply alist_get_is_Some. rewrite Hfst.
+    apply elem_of_list_fmap. by exists (v, k).
+Qed.
+
+End compaction.
+
+(** ** Well-formedness of the file, in terms of FILE levels *)
+Definition fchild (tbl : ftbl) (c : Z) (k : nat) : Prop :=
+  c ≠ 0%Z ∧ ∃ k' lo' hi', alist_get tbl (absn c) = Some (k', lo', hi') ∧
+                          (lo' = 0%Z ∨ k < k').
+
+Record wf_file (tbl : ftbl) (L : list (nat * nat)) : Prop := {
+  wff_nodup : NoDup (tbl.*1);
+  wff_term : ∃ kT, alist_get tbl 1%positive = Some (kT, 0%Z, 0%Z);
+  wff_term_only : ∀ u k lo hi, (u, (k, lo, hi)) ∈ tbl → lo = 0%Z →
+     u = 1%positive ∧ hi = 0%Z;
+  wff_node : ∀ u k lo hi, (u, (k, lo, hi)) ∈ tbl → lo ≠ 0%Z →
+     (0 < hi)%Z ∧ k ∈ L.*2 ∧ fchild tbl lo k ∧ fchild tbl hi k;
+}.
+
+Lemma wf_file_tbl tbl L O :
+  NoDup (L.*1) → NoDup (L.*2) → wf_file tbl L →
+  (∀ k i, alist_get O k = Some i → csrt L !! i = Some k) →
+  (∀ v k, (v, k) ∈ L → is_Some (alist_get O k)) →
+  wf_tbl tbl O (length L).
+Proof.
+  intros HL1 HL2 Hwf HO1 HO2.
+  assert (Hlvl : ∀ k, k ∈ L.*2 → ∃ i, alist_get O k = Some i ∧ csrt L !! i = Some k ∧
+                                   i < length L).
+  { intros k ([v k']&->&Hin)%elem_of_list_fmap. destruct (HO2 v k' Hin) as [i Hi].
+    exists i. split; [done|]. split; [by apply HO1|].
+    rewrite <- (csrt_length L). eapply lookup_lt_Some. by apply HO1. }
+  split; [apply Hwf|apply Hwf|apply Hwf|].
+  intros u k lo hi Hin Hlo.
+  destruct (wff_node _ _ Hwf _ _ _ _ Hin Hlo) as (Hhi&Hk&Hcl&Hch).
+  split; [done|]. destruct (Hlvl k Hk) as (i&Hi&Hsi&Hin').
+  exists i. split; [done|split; [done|]].
+  assert (Hchild : ∀ c, fchild tbl c k → child_ok tbl O (length L) c i).
+  { intros c (Hc0&k'&lo'&hi'&Hc&Hor). split; [split; [done|by eexists]|].
+    unfold nlvl. rewrite Hc. destruct (decide (lo' = 0%Z)) as [|Hlo']; [done|].
+    destruct Hor as [|Hkk']; [done|].
+    destruct (wff_node _ _ Hwf _ _ _ _ (alist_get_elem _ _ _ Hc) Hlo') as (_&Hk'&_).
+    destruct (Hlvl k' Hk') as (i'&Hi'&Hsi'&_). unfold o2nf. rewrite Hi'. cbn.
+    destruct (lt_eq_lt_dec i i') as [[?| ->]|Hgt]; [done| |].
+    - rewrite Hsi in Hsi'. injection Hsi' as ->. lia.
+    - pose proof (sorted_lookup_lt _ _ _ _ _ (csrt_sorted L) (csrt_nodup L HL2) Hgt Hsi' Hsi). lia. }
+  split; by apply Hchild.
+Qed.
+
+Lemma fden_ext f tbl : ∀ u a b,
+  (∀ u k lo hi, alist_get tbl u = Some (k, lo, hi) → lo ≠ 0%Z → a k = b k) →
+  fden f tbl u a = fden f tbl u b.
+Proof.
+  induction f as [|f IH]; intros u a b Hab; [done|]. cbn [fden].
+  destruct (alist_get tbl (absn u)) as [[[k lo] hi]|] eqn:He; [|done].
+  destruct (decide (lo = 0%Z)) as [|Hlo]; [done|].
+  rewrite (Hab _ _ _ _ He Hlo), (IH hi a b Hab), (IH lo a b Hab). done.
+Qed.
+
+(** ** [dd.dddmp.load] *)
+Theorem dddmp_load_correct h nodes i2p L tbl :
+  header_ok h = true →
+  info2permid h empty_st = (Ok i2p, empty_st) →
+  file_levels h empty_st = (Ok L, empty_st) →
+  parse_body h i2p nodes empty_st = (Ok tbl, empty_st) →
+  NoDup (L.*1) → NoDup (L.*2) → wf_file tbl L →
+  (∀ u, u ∈ dh_roots h → u ≠ 0%Z ∧ is_Some (alist_get tbl (absn u))) →
+  ∃ s, dddmp_load h nodes empty_st = (Ok tt, s) ∧ Inv s ∧
+    (∀ v i, vars s !! v = Some i ↔
+            ∃ k, merge_sort le (L.*2) !! i = Some k ∧ (v, k) ∈ L) ∧
+    ∃ rs, roots s = remove_dups rs ∧
+      Forall2 (fun u x => valid s x ∧ ∀ ρ fuel, length L < fuel →
+         denv s x ρ = fden fuel tbl u
+           (fun k => match alist_get (cperm L) k with Some v => ρ v | None => false end))
+        (dh_roots h) rs.
+Proof.
+  intros Hok Hi2p Hlev Hbody HL1 HL2 Hwf Hroots.
+  rewrite dddmp_load_unfold. rewrite Hok. cbn [assert]. rewrite (bind_ok _ _ empty_st tt empty_st) by done.
+  rewrite (bind_ok _ _ _ _ _ Hi2p), (bind_ok _ _ _ _ _ Hlev), (bind_ok _ _ _ _ _ Hbody).
+  cbv zeta. rewrite (new_levels_eq L HL1 HL2).
+  destruct (old2new_run L HL1 HL2 empty_st) as (O&EO&HOd&HO1&HO2).
+  rewrite (bind_ok _ _ _ _ _ EO). cbn [bind modify]. rewrite HOd.
+  destruct (dl_init_levels (cNL L)) as (s0&E0&HI0&Hoff0&Hv0&Hnv0).
+  { apply (cNL_fst_nodup L HL1 HL2). }
+  { rewrite (cNL_snd L). apply NoDup_seq. }
+  { rewrite (cNL_snd L), (cNL_length L). done. }
+  rewrite (bind_ok _ _ _ _ _ E0). rewrite (cNL_length L) in Hnv0 |- *.
+  pose proof (wf_file_tbl tbl L O HL1 HL2 Hwf HO1 HO2) as Hwt.
+  destruct (dddmp_rebuild tbl O (length L) (dh_roots h) s0) as [r s] eqn:Er.
+  pose proof Er as Er'.
+  apply (dddmp_rebuild_correct tbl O (length L) Hwt) in Er' as (->&HI&He&rs&Hrs&HF); try done.
+  exists s. split; [done|]. split; [done|].
+  assert (Hvars : ∀ v i, vars s !! v = Some i ↔
+            ∃ k, merge_sort le (L.*2) !! i = Some k ∧ (v, k) ∈ L).
+  { intros v i. destruct He as (_&<-&_). rewrite Hv0.
+    rewrite <- (elem_of_list_to_map (M := gmap nat)) by apply (cNL_fst_nodup L HL1 HL2).
+    apply (cNL_elem L HL2). }
+  split; [done|]. exists rs. split; [done|].
+  eapply Forall2_impl; [exact HF|]. intros u x [Hvx HD]. split; [done|].
+  intros ρ fuel Hf. unfold denv. rewrite (HD _ fuel Hf). apply fden_ext.
+  intros u' k lo hi Hu' Hlo.
+  destruct (wff_node _ _ Hwf _ _ _ _ (alist_get_elem _ _ _ Hu') Hlo) as (_&Hk&_).
+  apply elem_of_list_fmap in Hk as ([v k']&->&Hin). cbn [snd].
+  rewrite (cperm_get L HL2 v k' Hin).
+  destruct (HO2 v k' Hin) as [i Hi]. pose proof (HO1 _ _ Hi) as Hsi.
+  assert (vars s !! v = Some i) as Hvi by (apply Hvars; by exists k').
+  apply (inv_vars _ HI) in Hvi.
+  unfold fassign, o2nf. rewrite Hi. cbn. by rewrite Hvi.
+Qed.
+
+(** ** A checker for the hypotheses (used to show that they are satisfiable
+    on concrete files) *)
+Definition fchild_b (tbl : ftbl) (c : Z) (k : nat) : bool :=
+  bool_decide (c ≠ 0%Z) &&
+  match alist_get tbl (absn c) with
+  | Some (k', lo', _) => bool_decide (lo' = 0%Z) || bool_decide (k < k')
+  | None => false
+  end.
+Definition wf_file_b (tbl : ftbl) (L : list (nat * nat)) : bool :=
+  bool_decide (NoDup (tbl.*1)) &&
+  match alist_get tbl 1%positive with
+  | Some (_, lo, hi) => bool_decide (lo = 0%Z ∧ hi = 0%Z)
+  | None => false
+  end &&
+  forallb (fun '(u, (k, lo, hi)) =>
+    if decide (lo = 0%Z) then bool_decide (u = 1%positive ∧ hi = 0%Z)
+    else bool_decide (0 < hi)%Z && bool_decide (k ∈ L.*2) &&
+         fchild_b tbl lo k && fchild_b tbl hi k) tbl.
+
+Lemma fchild_b_sound tbl c k : fchild_b tbl c k = true → fchild tbl c k.
+Proof.
+  unfold fchild_b. intros [Hc H]%andb_true_iff. apply bool_decide_eq_true in Hc.
+  split; [done|]. destruct (alist_get tbl (absn c)) as [[[k' lo'] hi']|]; [|done].
+  exists k', lo', hi'. split; [done|].
+  apply orb_true_iff in H as [H|H]; apply bool_decide_eq_true in H; auto.
+Qed.
+
+Lemma wf_file_b_sound tbl L : wf_file_b tbl L = true → wf_file tbl L.
+Proof.
+  unfold wf_file_b. intros [[Hnd Ht]%andb_true_iff Hall]%andb_true_iff.
+  apply bool_decide_eq_true in Hnd. rewrite forallb_forall in Hall.
+  split.
+  - done.
+  - destruct (alist_get tbl 1%positive) as [[[kT lo] hi]|]; [|done].
+    apply bool_decide_eq_true in Ht as [-> ->]. by exists kT.
+  - intros u k lo hi Hin%elem_of_list_In Hlo. specialize (Hall _ Hin). cbn in Hall.
+    rewrite decide_True in Hall by done. by apply bool_decide_eq_true in Hall.
+  - intros u k lo hi Hin%elem_of_list_In Hlo. specialize (Hall _ Hin). cbn in Hall.
+    rewrite decide_False in Hall by done.
+    apply andb_true_iff in Hall as [[[H1 H2]%andb_true_iff H3]%andb_true_iff H4].
+    apply bool_decide_eq_true in H1, H2.
+    split_and!; try done; by apply fchild_b_sound.
+Qed.
